@@ -1,9 +1,9 @@
 SPECIFICATION Spec
 CONSTANTS
-  Dev <- DevAsIs
+  Dev <- DevInBand
   B = 3
   RecMax = 1
-  Bodies <- BodiesAll
+  Bodies <- BodiesThree
   Kinds <- KindsMC
   MaxDepth = 3
   Progs <- Programs
